@@ -301,3 +301,62 @@ def _(self: Obj['rbql_engine.SortedWriter']):
     ensures(len(self.subwriter.offered) <= len(self.offered) and (len(self.subwriter.offered) == len(self.offered) or self.subwriter.refused), 'complete_unless_refused')
     ensures(self.offered == old(self.offered), 'offered_unchanged')
     modifies(self, region(self.subwriter))
+
+
+# ---------------------------------------------------------------- AggregateWriter (C03)
+classdef('rbql_engine.AggregateWriter', bases=['rbql_engine.RBQLOutputWriter'],
+         fields=dict(subwriter=Obj['rbql_engine.RBQLOutputWriter'], aggregators=List[Obj['rbql_engine.Aggregator']], aggregation_keys=Set[Key]))
+classdef('rbql_engine.RBQLAggregationToken', fields=dict(marker_id=Int, value=Cell))
+
+
+@trusted('builtins.sorted.keyset', trusted='A-SORT: sorted(list(set)) lists exactly the members of the set, each once, in strictly ascending order (key_le is the order of the keys: homogeneous, comparable group keys)')
+def _(v: Set[Key]) -> List[Key]:
+    ensures(is_fresh(result) and contents(result) == sorted_keyset(set_map(v), set_size(v)), 'fresh')
+    ensures(forall(Key, lambda k: in_set(v, k) == (k in contents(result))), 'same_members')
+    ensures(forall(Int, Int, lambda i, j: implies(0 <= i and i < j and j < len(result), key_le(contents(result)[i], contents(result)[j]) and contents(result)[i] != contents(result)[j])), 'strictly_ascending')
+    ensures(len(result) == set_size(v), 'each_once')
+
+
+@contract('rbql_engine.AggregateWriter.__init__', name='C03.aggwriter.init', props=['C03', 'C15'])
+def _(self: Obj['rbql_engine.AggregateWriter'], subwriter: Obj['rbql_engine.RBQLOutputWriter']):
+    requires(not same(self, subwriter), 'distinct')
+    ghost_update(self.level, subwriter.level + 1)
+    ghost_update(self.offered, empty(RecV))
+    ghost_update(self.refused, False)
+    ghost_update(self.finished, False)
+    ghost_update(self.sorted_iface, False)
+    ensures(same(self.subwriter, subwriter) and len(self.aggregators) == 0 and set_size(self.aggregation_keys) == 0
+            and forall(Key, lambda k: not in_set(self.aggregation_keys, k)) and is_fresh(self.aggregators) and is_fresh(self.aggregation_keys), 'fields')
+    modifies(self)
+
+
+@contract('rbql_engine.AggregateWriter.finish', name='C03.aggwriter.finish', props=['C03', 'C15', 'C06'], store_policy='writer')
+def _(self: Obj['rbql_engine.AggregateWriter']):
+    requires(self.subwriter.level < self.level and not self.subwriter.sorted_iface, 'chain')
+    requires(not self.subwriter.finished and not self.subwriter.refused and not self.finished, 'sub_open')
+    requires(not is_offered(self.aggregators), 'aggregator_list_not_owned_by_writer')
+    requires(forall(Key, Int, lambda k, i: implies(in_set(self.aggregation_keys, k) and 0 <= i and i < len(self.aggregators), len(contents(self.aggregators)[i].hist[k]) >= 1)), 'every_group_has_values_in_every_column')
+    ghost_update(self.finished, True)
+    local_types(all_keys=List[Key])
+    loop_types(0, key=Key, out_fields=List[Cell])
+    invariant(0, 0 <= __i and __i <= len(all_keys) and is_fresh(all_keys) and not is_offered(all_keys) and contents(all_keys) == at_loop_entry(contents(all_keys))
+              and same(self.aggregation_keys, old(self.aggregation_keys)) and len(all_keys) == set_size(self.aggregation_keys)
+              and contents(all_keys) == sorted_keyset(set_map(self.aggregation_keys), set_size(self.aggregation_keys))
+              and forall(Int, lambda j: implies(0 <= j and j < len(all_keys), in_set(self.aggregation_keys, contents(all_keys)[j]))), 'keys')
+    invariant(0, same(self.subwriter, old(self.subwriter)) and same(self.aggregators, old(self.aggregators)) and contents(self.aggregators) == old(contents(self.aggregators))
+              and self.subwriter.level < self.level and not self.subwriter.sorted_iface and not is_offered(self.aggregators), 'config')
+    invariant(0, len(self.subwriter.offered) == len(old(self.subwriter.offered)) + __i and not self.subwriter.refused and not self.subwriter.finished, 'one_row_per_key_so_far')
+    invariant(0, forall(Int, Int, lambda j, c: implies(0 <= j and j < __i and 0 <= c and c < len(self.aggregators),
+                                                          len(self.subwriter.offered[len(old(self.subwriter.offered)) + j]) == len(self.aggregators)
+                                                          and self.subwriter.offered[len(old(self.subwriter.offered)) + j][c] == contents(self.aggregators)[c].finalv[contents(all_keys)[j]])), 'row_j_holds_the_final_values_of_key_j')
+    exit_hint(contents(self.aggregators) == old(contents(self.aggregators)) and same(self.aggregators, old(self.aggregators))
+              and same(self.aggregation_keys, old(self.aggregation_keys)) and same(self.subwriter, old(self.subwriter)), 'configuration_unchanged')
+    exit_hint(forall(Int, lambda j: implies(0 <= j and j < at_iter_start(len(self.subwriter.offered)), self.subwriter.offered[j] == at_iter_start(self.subwriter.offered)[j])), 'earlier_rows_unchanged')
+    # one output row per distinct group key, in ascending key order, each column the final value of its aggregator; stops at a refusal
+    ensures(self.subwriter.finished, 'sub_finished_once')
+    ensures(len(self.subwriter.offered) - len(old(self.subwriter.offered)) <= set_size(self.aggregation_keys)
+            and (self.subwriter.refused or len(self.subwriter.offered) - len(old(self.subwriter.offered)) == set_size(self.aggregation_keys)), 'one_row_per_group_unless_refused')
+    ensures(forall(Int, Int, lambda j, c: implies(0 <= j and j < len(self.subwriter.offered) - len(old(self.subwriter.offered)) - (1 if self.subwriter.refused else 0) and 0 <= c and c < len(self.aggregators),
+                                                   self.subwriter.offered[len(old(self.subwriter.offered)) + j][c]
+                                                   == contents(self.aggregators)[c].finalv[sorted_keyset(set_map(self.aggregation_keys), set_size(self.aggregation_keys))[j]])), 'rows_in_ascending_key_order_with_final_values')
+    modifies(self, region(self.subwriter))
